@@ -16,7 +16,7 @@ import numpy as np
 from numba import njit  # type: ignore
 from numpy.typing import NDArray
 
-from nucs.constants import EVENT_MASK_GROUND, EVENT_MASK_MIN, MAX, MIN
+from nucs.constants import EVENT_MASK_GROUND, EVENT_MASK_MIN, MAX, MIN, PROBLEM_INCONSISTENT
 from nucs.heuristics.heuristics import first_not_instantiated_var_heuristic
 from nucs.problems.problem import Problem
 from nucs.propagators.propagators import ALG_AFFINE_EQ, ALG_AFFINE_LEQ, ALG_ALLDIFFERENT, add_propagators
@@ -165,7 +165,11 @@ def golomb_consistency_algorithm(
         for i in range(ni_var_idx - 1, mark_nb - 1):
             for j in range(i + 1, mark_nb):
                 dom_idx = dom_indices_arr[index(mark_nb, i, j)]
+                if shr_domains_stack[top, dom_idx, MIN] >= minimal_sum[j - i]:
+                    continue  # a bound is only ever tightened
                 shr_domains_stack[top, dom_idx, MIN] = minimal_sum[j - i]  # no offset
+                if shr_domains_stack[top, dom_idx, MIN] > shr_domains_stack[top, dom_idx, MAX]:
+                    return PROBLEM_INCONSISTENT
                 events = EVENT_MASK_MIN
                 if shr_domains_stack[top, dom_idx, MIN] == shr_domains_stack[top, dom_idx, MAX]:
                     events |= EVENT_MASK_GROUND
